@@ -443,7 +443,6 @@ class Mod:
         self.abi = 2
         self.K = None          # -DK=<n> through the CCFLAGS environment variable
         self.xa = None         # -X verifprog/a.XA=<s>
-        self.hidden = {}       # responsible input -> True when its last edit kept size and mtime
         self.versions = {}     # relpath -> list of (content, mtime_ns) it has had
         self.log = []
 
@@ -503,6 +502,15 @@ class Mod:
         for rel in self.files():
             self.write(rel)
 
+    def is_hidden(self, rel):
+        """the file's current (size, mtime) has been seen in this history with a DIFFERENT content: an edit (or a restored
+        checkout) that the (path, size, mtime) digest cannot see"""
+        p = os.path.join(self.root, rel)
+        if not os.path.exists(p):
+            return False
+        cur, mt = open(p).read(), os.stat(p).st_mtime_ns
+        return any(len(d) == len(cur) and m == mt and d != cur for d, m in self.versions.get(rel, []))
+
     # ---- which input determines which output line
     RESP = {"main.src": "main.go", "main.fill": "main.go", "a.src": "a/a.go", "a.cside": "a/_wrap/w.c", "a.k": "env:CCFLAGS", "a.x": "flag:-X",
             "a.tag": "flag:-tags", "a.fill": "a/a.go", "a.cc": "c/c.go", "a.extra": "a/extra.go", "c.src": "c/c.go", "c.fill": "c/c.go",
@@ -537,12 +545,10 @@ class Mod:
             rel = arg
             self.new_const(self.CONST_OF[rel], same_size=self.rng.random() < 0.5)
             self.write(rel)
-            self.hidden[rel] = False
         elif kind == "src-hidden":              # same size, mtime restored with os.utime  (known class: mtime)
             rel = arg
             self.new_const(self.CONST_OF[rel], same_size=True)
             self.write(rel, preserve_mtime=True)
-            self.hidden[rel] = True
         elif kind == "cside":                   # edit of the C file named by LLGoFiles (known class: side)
             self.new_const("cside", same_size=self.rng.random() < 0.5)
             self.write("a/_wrap/w.c")
@@ -580,7 +586,6 @@ class Mod:
             m = re.search(r"const (?:Src|Const) = (\d+)", data)
             self.c[self.CONST_OF[rel]] = int(m.group(1))
             self.versions[rel].append((data, mt))
-            self.hidden[rel] = False
         elif kind in ("noop", "clear", "force"):
             pass
         else:
@@ -738,7 +743,7 @@ def run_history(ctx, builder, hello, modeld, hid, script, fresh_oracle, res):
         steps.append(step)
         for line in stale:
             resp = Mod.RESP.get(line, "?")
-            if resp in ("c/c.go", "a/a.go", "b/b.go") and mod.hidden.get(resp):
+            if resp in ("c/c.go", "a/a.go", "b/b.go", "a/extra.go") and mod.is_hidden(resp):
                 key = KNOWN_CLASSES["mtime"]
             elif resp == "a/_wrap/w.c":
                 key = KNOWN_CLASSES["side"]
@@ -804,6 +809,9 @@ def reproducibility(ctx, builder, res, rounds=2):
     root = os.path.join(ctx.scratch, "repro")
     mod = Mod(os.path.join(root, "mod"), ctx.rng, nfill=9)
     mod.write_all()
+    # -O0: the dumped IR is llgo's own emission (cl/ssa), which is what the sorted loops order; with LLVM 14 the textual
+    # -O2 IR of the runtime package does not re-parse in clang (`-gen-llfiles` switches to the textual route)
+    mod.opt = "-O0"
     irs = []
     for k in range(rounds):
         for f in glob.glob(os.path.join(builder.gocache, "*", "*.ll")):
@@ -910,7 +918,7 @@ def run(ctx, args):
             targeted.append(TARGETED[kind])
     if targeted:
         plans.append(("targeted", b_harn, targeted + [("noop", None)], False))
-    nh, ns = (1, 6) if quick else (8, 10)
+    nh, ns = (1, 6) if quick else (6, 10)
     for i in range(nh):
         plans.append(("llgo-%d" % i, b_llgo, random_script(rng, ns, False), (not quick) and i % 4 == 0))
     for i in range(nh):
